@@ -65,9 +65,14 @@ def r04_4(ctx):
             over = ast.unparse(gen.iter)
             conds = ' and '.join(ast.unparse(x) for x in gen.ifs)
             pv = ast.unparse(gen.target)
+            # one filter: <pid> in cleaned or <pid> not in all_pids (either order, any spelling of the negation)
+            alts = set()
+            if len(gen.ifs) == 1:
+                c0 = gen.ifs[0]
+                alts = {q.norm_guard(je, e, True) for e in (c0.values if isinstance(c0, ast.BoolOp) and
+                                                              isinstance(c0.op, ast.Or) else [c0])}
             good = over == jobx + '.worker_pids()' and ast.unparse(g.elt) == pv and \
-                conds.replace(' ', '') in ('%sin%sor%snotin%s' % (pv, RA.cleaned, pv, RA.all_pids),
-                                           '%snotin%sor%sin%s' % (pv, RA.all_pids, pv, RA.cleaned))
+                alts == {('%s in %s' % (pv, RA.cleaned), True), ('%s in %s' % (pv, RA.all_pids), False)}
             detail = 'next(%s for %s in %s if %s)' % (ast.unparse(g.elt), pv, over, conds)
             dflt = defs[0].args[1] if len(defs[0].args) > 1 else None
             good = good and isinstance(dflt, ast.Constant) and dflt.value is None
